@@ -10,7 +10,11 @@
 //   h_c09_getters_vecinf  : the vector forms on the INFINITE entries: an infinite bound/side must still be infinite
 #include "lp_build.h"
 using namespace soplex; using namespace vph;
-#ifndef NR
+// shape: -DVNR=.. -DVNC=.. (not NR/NC on the command line: lp_build.h uses these names for template parameters)
+#ifdef VNR
+#define NR VNR
+#define NC VNC
+#else
 #define NR 2
 #define NC 2
 #endif
